@@ -20,8 +20,91 @@ Open Scope Z_scope.
 
 Definition zlen (l : list Z) : Z := Z.of_nat (length l).
 
-(** number of bits of the 16-bit window that lie beyond the data, at bit position [pos] *)
+(** number of bits of the 16-bit window that lie beyond the data; [t] = pos + 16 - 8*len *)
 Definition kof (t : Z) : Z := if t <=? 0 then 0 else if 16 <=? t then 16 else t.
+
+(** [2 ^ x] behind a name, so that [lia] treats powers with a variable exponent as atoms *)
+Definition p2 (x : Z) : Z := 2 ^ x.
+
+(** "the low [k] bits of [v] are zero", behind a name for the same reason (a [mod] by a
+    non-numeral makes [lia]'s div/mod pre-processing split cases) *)
+Definition lowz (v k : Z) : Prop := v mod 2 ^ k = 0.
+
+(** evaluate 2^c for numeral c everywhere *)
+Ltac pow2norm :=
+  repeat match goal with
+         | |- context [lowz ?v ?x] =>
+           match x with Z0 => change (lowz v x) with (v mod 1 = 0)
+                      | Zpos _ => let q := eval vm_compute in (2 ^ x) in change (lowz v x) with (v mod q = 0) end
+         | H : context [lowz ?v ?x] |- _ =>
+           match x with Z0 => change (lowz v x) with (v mod 1 = 0) in H
+                      | Zpos _ => let q := eval vm_compute in (2 ^ x) in change (lowz v x) with (v mod q = 0) in H end
+         | |- context [p2 ?x] =>
+           match x with Z0 => change (p2 x) with 1 | Zpos _ => let v := eval vm_compute in (2 ^ x) in change (p2 x) with v end
+         | H : context [p2 ?x] |- _ =>
+           match x with Z0 => change (p2 x) with 1 in H | Zpos _ => let v := eval vm_compute in (2 ^ x) in change (p2 x) with v in H end
+         | |- context [2 ^ ?x] =>
+           match x with
+           | Z0 => change (2 ^ x) with 1
+           | Zpos _ => let v := eval vm_compute in (2 ^ x) in change (2 ^ x) with v
+           end
+         | H : context [2 ^ ?x] |- _ =>
+           match x with
+           | Z0 => change (2 ^ x) with 1 in H
+           | Zpos _ => let v := eval vm_compute in (2 ^ x) in change (2 ^ x) with v in H
+           end
+         end.
+
+Ltac enum16 a :=
+  assert (a = 0 \/ a = 1 \/ a = 2 \/ a = 3 \/ a = 4 \/ a = 5 \/ a = 6 \/ a = 7 \/ a = 8 \/ a = 9 \/ a = 10 \/
+          a = 11 \/ a = 12 \/ a = 13 \/ a = 14 \/ a = 15) as Henum by lia;
+  repeat (destruct Henum as [Henum|Henum]; [subst a; pow2norm|]); try (subst a; pow2norm).
+
+Lemma dbl_mod a v : 0 <= a <= 15 -> 0 <= v < 65536 -> lowz v a -> lowz (2 * v mod 65536) (a + 1).
+Proof. unfold lowz. intros Ha Hv Hm. enum16 a; cbn [Z.add Pos.add Pos.succ] ; pow2norm; lia. Qed.
+
+Lemma dbl_delta a v v' : 0 <= a <= 15 -> 0 <= v -> v' < 65536 -> lowz v a -> v <= v' < v + p2 a ->
+  2 * v mod 65536 <= 2 * v' mod 65536 < 2 * v mod 65536 + p2 (a + 1).
+Proof. unfold lowz. intros Ha Hv Hv' Hm Hd. enum16 a; cbn [Z.add Pos.add Pos.succ]; pow2norm; lia. Qed.
+
+Lemma skipn_tail {A} : forall (c : nat) (l : list A), tl (skipn c l) = skipn (S c) l.
+Proof. induction c as [|c IH]; intros [|x l]; cbn [skipn tl]; try reflexivity. apply IH. Qed.
+
+Lemma skipn_app_lt {A} (c : nat) (l e : list A) : (c <= length l)%nat -> skipn c (l ++ e) = skipn c l ++ e.
+Proof. intros H. rewrite skipn_app. replace (c - length l)%nat with 0%nat by lia. reflexivity. Qed.
+
+Lemma skipn_app_ge {A} (c : nat) (l e : list A) : (length l <= c)%nat -> skipn c l = [] /\ skipn c (l ++ e) = skipn (c - length l) e.
+Proof. intros H. split; [apply skipn_all2; exact H|]. rewrite skipn_app, (skipn_all2 l) by exact H. reflexivity. Qed.
+
+Lemma head_byte (l : list Z) : bytes_ok l -> 0 <= match l with [] => 0 | b :: _ => b end < 256.
+Proof. intros H. destruct l as [|b r]; [lia|]. inversion H; assumption. Qed.
+
+Lemma bd_init_fields m :
+  bd_init m = mkBdec (256 * nth 0 m 0 + nth 1 m 0) 255 0 (skipn 2 m) 0 (8 * (Z.of_nat (length m) - 1)) false.
+Proof. destruct m as [|a [|b r]]; cbn [bd_init nth skipn length]; f_equal; lia. Qed.
+
+Lemma nth_byte (m : list Z) (i : nat) : bytes_ok m -> 0 <= nth i m 0 < 256.
+Proof.
+  intros H. destruct (Nat.lt_ge_cases i (length m)) as [Hi|Hi].
+  - unfold bytes_ok in H. rewrite Forall_forall in H. apply H. apply nth_In. exact Hi.
+  - rewrite nth_overflow by exact Hi. lia.
+Qed.
+
+Lemma normalize_range : forall fuel v range c r pos v1 rg c1 r1 p1,
+  1 <= range <= 255 -> 128 <= range * 2 ^ Z.of_nat fuel ->
+  bd_normalize fuel v range c r pos = (v1, rg, c1, r1, p1) -> 128 <= rg <= 255.
+Proof.
+  induction fuel as [|fuel IH]; intros v range c r pos v1 rg c1 r1 p1 Hr Hp H; cbn [bd_normalize] in H.
+  - injection H as _ <- _ _ _. cbn in Hp. lia.
+  - destruct (Z.ltb_spec range 128).
+    + destruct (bd_shift1 v c r) as [[w cw] rw].
+      assert (Hr2 : 1 <= range * 2 <= 255) by lia.
+      assert (Hp2 : 128 <= range * 2 * 2 ^ Z.of_nat fuel).
+      { rewrite Nat2Z.inj_succ, Z.pow_succ_r in Hp by lia.
+        replace (range * 2 * 2 ^ Z.of_nat fuel) with (range * (2 * 2 ^ Z.of_nat fuel)) by ring. exact Hp. }
+      apply (IH _ _ _ _ _ _ _ _ _ _ Hr2 Hp2 H).
+    + injection H as _ <- _ _ _. lia.
+Qed.
 
 Section Sim.
   Variables (l ext : list Z).
@@ -29,29 +112,329 @@ Section Sim.
   Hypothesis Hext : bytes_ok ext.
   Let n := zlen l.
 
-  Record rel (d d' : bdec) : Prop := {
-    r_range : bd_range d = bd_range d';
-    r_count : bd_count d = bd_count d';
-    r_pos : bd_pos d = bd_pos d';
-    r_pos0 : 0 <= bd_pos d;
-    r_cnt : bd_count d = bd_pos d mod 8;
-    r_rest : bd_rest d = skipn (Z.to_nat (2 + bd_pos d / 8)) l;
-    r_rest' : bd_rest d' = skipn (Z.to_nat (2 + bd_pos d / 8)) (l ++ ext);
-    r_lim : bd_lim d = 8 * (n - 1);
-    r_lim' : bd_lim d <= bd_lim d';
-    r_v : 0 <= bd_value d < 65536;
-    r_v' : 0 <= bd_value d' < 65536;
-    r_c0 : bd_value d mod 2 ^ bd_count d = 0;
-    r_c0' : bd_value d' mod 2 ^ bd_count d = 0;
-    r_k : bd_value d mod 2 ^ kof (bd_pos d + 16 - 8 * n) = 0;
-    r_d : bd_value d <= bd_value d' < bd_value d + 2 ^ kof (bd_pos d + 16 - 8 * n) }.
+  (** the relation on the moving parts of the two decoder states at bit position [pos] *)
+  Definition crel (v c : Z) (r : list Z) (v' : Z) (r' : list Z) (pos : Z) : Prop :=
+    0 <= pos /\ c = pos mod 8 /\
+    r = skipn (Z.to_nat (2 + pos / 8)) l /\ r' = skipn (Z.to_nat (2 + pos / 8)) (l ++ ext) /\
+    0 <= v < 65536 /\ 0 <= v' < 65536 /\
+    lowz v c /\ lowz v' c /\
+    lowz v (kof (pos + 16 - 8 * n)) /\ v <= v' < v + p2 (kof (pos + 16 - 8 * n)).
 
-  Lemma skipn_head_app (c : nat) :
-    (c < length l)%nat ->
-    exists b, skipn c l = b :: skipn (S c) l /\ skipn c (l ++ ext) = b :: skipn (S c) (l ++ ext) /\ 0 <= b < 256.
+  Lemma shift_sim v c r v' r' pos :
+    crel v c r v' r' pos ->
+    exists v1 c1 r1 v1' r1',
+      bd_shift1 v c r = (v1, c1, r1) /\ bd_shift1 v' c r' = (v1', c1, r1') /\ crel v1 c1 r1 v1' r1' (pos + 1).
   Proof.
-    intros Hc. destruct (skipn c l) as [|b tl] eqn:E.
-    - apply (f_equal (@length Z)) in E. rewrite skipn_length in E. cbn in E. lia.
-    - exists b. split; [f_equal; symmetry; apply (ParserSpecProofs_skipn_S c l b tl E)|].
-  Abort.
+    intros (Hp & Hc & Hr & Hr' & Hv & Hv' & Hm & Hm' & Hk & Hd).
+    unfold bd_shift1. set (w := v * 2 mod 65536). set (w' := v' * 2 mod 65536).
+    set (t := pos + 16 - 8 * n) in *.
+    assert (Hc7 : 0 <= c <= 7) by (clear - Hc Hp; lia).
+    assert (Hw : 0 <= w < 65536 /\ 0 <= w' < 65536) by (clear; subst w w'; lia).
+    assert (Hwm : lowz w (c + 1) /\ lowz w' (c + 1)).
+    { subst w w'. rewrite (Z.mul_comm v), (Z.mul_comm v'). split; apply dbl_mod; (assumption || (clear - Hc7; lia)). }
+    (* the part of the relation that concerns the window bits beyond the data, after doubling *)
+    assert (Hkd : lowz w (kof (t + 1)) /\ w <= w' < w + p2 (kof (t + 1))).
+    { subst w w'. rewrite (Z.mul_comm v), (Z.mul_comm v'). unfold kof in *.
+      destruct (Z.leb_spec t 0) as [Ht0|Ht0].
+      - pow2norm. assert (v' = v) by lia. subst v'.
+        destruct (Z.leb_spec (t + 1) 0); [pow2norm; lia|].
+        destruct (Z.leb_spec 16 (t + 1)); [lia|]. replace (t + 1) with 1 by lia. pow2norm. lia.
+      - destruct (Z.leb_spec 16 t) as [Ht16|Ht16].
+        + pow2norm. assert (v = 0) by lia. subst v.
+          destruct (Z.leb_spec (t + 1) 0); [lia|]. destruct (Z.leb_spec 16 (t + 1)); [|lia]. pow2norm. lia.
+        + destruct (Z.leb_spec (t + 1) 0); [lia|].
+          destruct (Z.leb_spec 16 (t + 1)) as [Hq|Hq].
+          * replace 16 with (t + 1) by lia.
+            split; [apply dbl_mod; (assumption || lia)|apply dbl_delta; (assumption || lia)].
+          * split; [apply dbl_mod; (assumption || lia)|apply dbl_delta; (assumption || lia)]. }
+    destruct Hwm as [Hwm Hwm']. destruct Hkd as [Hk1 Hd1].
+    destruct (Z.eqb_spec (c + 1) 8) as [Ec|Ec].
+    - (* a byte is appended *)
+      assert (Hc7' : c = 7) by (clear - Ec; lia). rewrite Hc7' in *. clear Hc7'.
+      set (ci := Z.to_nat (2 + pos / 8)) in *.
+      assert (Hci : Z.to_nat (2 + (pos + 1) / 8) = S ci) by (subst ci; lia).
+      assert (Hposm : 0 = (pos + 1) mod 8) by lia.
+      set (b := match r with [] => 0 | x :: _ => x end).
+      set (b' := match r' with [] => 0 | x :: _ => x end).
+      assert (Hb : 0 <= b < 256).
+      { subst b. apply head_byte. rewrite Hr. unfold bytes_ok. apply bytes_ok_skipn. exact Hl. }
+      assert (Hb' : 0 <= b' < 256).
+      { subst b'. apply head_byte. rewrite Hr'. apply bytes_ok_skipn. apply bytes_ok_app. split; assumption. }
+      exists (w + b), 0, (tl r), (w' + b'), (tl r').
+      split; [destruct r; subst b; cbn [tl]; f_equal; f_equal; lia|].
+      split; [destruct r'; subst b'; cbn [tl]; f_equal; f_equal; lia|].
+      change (7 + 1) with 8 in *. pow2norm.
+      unfold crel. replace (pos + 1 + 16 - 8 * n) with (t + 1) by (subst t; lia).
+      rewrite Hci. rewrite Hr, Hr', !skipn_tail. pow2norm.
+      split; [lia|]. split; [exact Hposm|]. split; [reflexivity|]. split; [reflexivity|].
+      split; [lia|]. split; [lia|]. split; [lia|]. split; [lia|].
+      (* which byte was appended: inside l, the first beyond l, or later *)
+      assert (Ht : t = 8 * (Z.of_nat ci - n) + 7) by (subst t ci; lia).
+      destruct (Nat.lt_ge_cases ci (length l)) as [Hin|Hout].
+      + (* inside: same byte on both sides, nothing beyond the data yet *)
+        assert (Hrr : r' = r ++ ext) by (rewrite Hr, Hr'; apply skipn_app_lt; lia).
+        assert (Hrne : r <> []).
+        { rewrite Hr. intros E. apply (f_equal (@length Z)) in E. rewrite skipn_length in E. cbn in E. lia. }
+        assert (Ebb : b' = b) by (subst b b'; rewrite Hrr; destruct r; [contradiction|reflexivity]).
+        unfold kof in *. subst n. unfold zlen in *.
+        destruct (Z.leb_spec t 0); [|lia]. destruct (Z.leb_spec (t + 1) 0); [|lia]. pow2norm.
+        assert (v' = v) by lia. subst v'. subst w'. rewrite Ebb. lia.
+      + destruct (skipn_app_ge ci l ext Hout) as [E1 E2].
+        assert (b = 0) by (subst b; rewrite Hr, E1; reflexivity). subst n. unfold zlen in *.
+        destruct (Nat.eq_dec ci (length l)) as [Eq|Neq].
+        * (* the first byte beyond the data *)
+          assert (t = 7) by lia. unfold kof in *.
+          destruct (Z.leb_spec t 0); [lia|]. destruct (Z.leb_spec 16 t); [lia|].
+          destruct (Z.leb_spec (t + 1) 0); [lia|]. destruct (Z.leb_spec 16 (t + 1)); [lia|].
+          replace t with 7 in * by lia. change (7 + 1) with 8 in *. pow2norm.
+          assert (v' = v) by lia. subst v'. subst w'. lia.
+        * assert (15 <= t) by lia. unfold kof in *.
+          destruct (Z.leb_spec t 0); [lia|]. destruct (Z.leb_spec (t + 1) 0); [lia|].
+          destruct (Z.leb_spec 16 (t + 1)); [|lia]. pow2norm.
+          destruct (Z.leb_spec 16 t).
+          -- pow2norm. assert (v = 0) by lia. subst v. subst w. lia.
+          -- replace t with 15 in * by lia. pow2norm. subst w. lia.
+    - (* no byte appended *)
+      exists w, (c + 1), r, w', r'. split; [reflexivity|]. split; [reflexivity|].
+      unfold crel. replace (pos + 1 + 16 - 8 * n) with (t + 1) by (subst t; lia).
+      replace ((pos + 1) / 8) with (pos / 8) by lia.
+      split; [lia|]. split; [lia|]. split; [exact Hr|]. split; [exact Hr'|].
+      split; [lia|]. split; [lia|]. split; [exact Hwm|]. split; [exact Hwm'|]. split; [exact Hk1|exact Hd1].
+  Qed.
+
+  Lemma normalize_sim : forall fuel v range c r v' r' pos v1 rg c1 r1 p1,
+    crel v c r v' r' pos ->
+    bd_normalize fuel v range c r pos = (v1, rg, c1, r1, p1) ->
+    exists v1' r1', bd_normalize fuel v' range c r' pos = (v1', rg, c1, r1', p1) /\ crel v1 c1 r1 v1' r1' p1.
+  Proof.
+    induction fuel as [|fuel IH]; intros v range c r v' r' pos v1 rg c1 r1 p1 Hrel H; cbn [bd_normalize] in *.
+    - injection H as <- <- <- <- <-. eauto.
+    - destruct (range <? 128).
+      + destruct (shift_sim _ _ _ _ _ _ Hrel) as (w & cw & rw & w' & rw' & E1 & E2 & Hrel1).
+        rewrite E1 in H. rewrite E2. apply (IH _ _ _ _ _ _ _ _ _ _ _ _ Hrel1 H).
+      + injection H as <- <- <- <- <-. eauto.
+  Qed.
+
+  (** the state relation *)
+  Definition rel (d d' : bdec) : Prop :=
+    bd_range d = bd_range d' /\ bd_count d = bd_count d' /\ bd_pos d = bd_pos d' /\
+    bd_lim d = 8 * (n - 1) /\ bd_lim d <= bd_lim d' /\ 128 <= bd_range d <= 255 /\
+    crel (bd_value d) (bd_count d) (bd_rest d) (bd_value d') (bd_rest d') (bd_pos d).
+
+  (** One bool decoded from a window inside the data: same bit, related states, and
+      neither decoder flags a past-end read. *)
+  Lemma read_bool_sim prob d d' :
+    rel d d' -> bd_pos d <= bd_lim d -> 0 <= prob <= 255 ->
+    let '(b, d1) := read_bool prob d in
+    let '(b', d1') := read_bool prob d' in
+    b = b' /\ rel d1 d1' /\ bd_past d1 = bd_past d /\ bd_past d1' = bd_past d'.
+  Proof.
+    intros (Hrg & Hct & Hps & Hlim & Hlim' & Hrb & Hrel) Hin Hprob. unfold read_bool.
+    assert (Hsp : 1 <= bd_split (bd_range d) prob <= bd_range d - 1).
+    { unfold bd_split. clear - Hrb Hprob. nia. }
+    rewrite <- Hrg, <- Hct, <- Hps.
+    set (split := bd_split (bd_range d) prob) in *.
+    destruct Hrel as (Hp & Hc & Hr & Hr' & Hv & Hv' & Hm & Hm' & Hk & Hd).
+    set (t := bd_pos d + 16 - 8 * n) in *.
+    assert (Ht8 : t <= 8) by (subst t; lia).
+    assert (Hc7 : 0 <= bd_count d <= 7) by (clear - Hc Hp; lia).
+    (* same decision; the subtraction keeps the relation *)
+    assert (Hdec : (split * 256 <=? bd_value d) = (split * 256 <=? bd_value d') /\
+                   (split * 256 <= bd_value d ->
+                    crel (bd_value d - split * 256) (bd_count d) (bd_rest d) (bd_value d' - split * 256) (bd_rest d') (bd_pos d))).
+    { unfold crel. fold t. unfold kof in *.
+      assert (Hcs : forall x, lowz x (bd_count d) -> split * 256 <= x -> lowz (x - split * 256) (bd_count d)).
+      { intros x Hx Hle. remember (bd_count d) as c. clear - Hx Hc7 Hsp. unfold lowz in *.
+        assert (c = 0 \/ c = 1 \/ c = 2 \/ c = 3 \/ c = 4 \/ c = 5 \/ c = 6 \/ c = 7) as Hen by lia.
+        repeat (destruct Hen as [Hen|Hen]; [subst c; pow2norm; lia|]). subst c. pow2norm. lia. }
+      destruct (Z.leb_spec t 0) as [Ht0|Ht0].
+      - pow2norm. assert (Ev : bd_value d' = bd_value d) by lia. rewrite Ev. split; [reflexivity|].
+        intros Hle. rewrite Ev in Hm'. pose proof (Hcs _ Hm Hle).
+        repeat split; try assumption; try lia; auto.
+      - destruct (Z.leb_spec 16 t); [lia|].
+        assert (t = 1 \/ t = 2 \/ t = 3 \/ t = 4 \/ t = 5 \/ t = 6 \/ t = 7 \/ t = 8) as Hen by lia.
+        assert (Hgoal : forall k, t = k -> 1 <= k <= 8 ->
+                  lowz (bd_value d) k -> bd_value d <= bd_value d' < bd_value d + p2 k ->
+                  (split * 256 <=? bd_value d) = (split * 256 <=? bd_value d') /\
+                  (split * 256 <= bd_value d ->
+                   lowz (bd_value d - split * 256) k /\
+                   bd_value d - split * 256 <= bd_value d' - split * 256 < bd_value d - split * 256 + p2 k)).
+        { intros k _ Hk18 Hlz Hdd. clear - Hk18 Hlz Hdd Hsp Hv Hv'. unfold lowz in *.
+          assert (k = 1 \/ k = 2 \/ k = 3 \/ k = 4 \/ k = 5 \/ k = 6 \/ k = 7 \/ k = 8) as Hen by lia.
+          repeat (destruct Hen as [Hen|Hen]; [subst k; pow2norm; lia|]). subst k. pow2norm. lia. }
+        destruct (Hgoal t eq_refl ltac:(lia) Hk Hd) as [Hg1 Hg2]. split; [exact Hg1|].
+        intros Hle. destruct (Hg2 Hle) as [Hg3 Hg4].
+        pose proof (Hcs _ Hm Hle). pose proof (Hcs _ Hm' ltac:(lia)).
+        repeat split; try assumption; try lia; auto. }
+    destruct Hdec as [Hdec Hsub].
+    assert (Hpast : (bd_lim d <? bd_pos d) = false /\ (bd_lim d' <? bd_pos d) = false) by lia.
+    destruct Hpast as [Hpa1 Hpa2]. rewrite Hpa1, Hpa2, !orb_false_r.
+    rewrite <- Hdec.
+    destruct (Z.leb_spec (split * 256) (bd_value d)) as [Hle|Hgt].
+    - destruct (bd_normalize 8 (bd_value d - split * 256) (bd_range d - split) (bd_count d) (bd_rest d) (bd_pos d))
+        as [[[[v1 rg] c1] r1] p1] eqn:En.
+      destruct (normalize_sim _ _ _ _ _ _ _ _ _ _ _ _ _ (Hsub Hle) En) as (v1' & r1' & En' & Hrel1).
+      assert (Hr1 : 1 <= bd_range d - split <= 255) by (clear - Hsp Hrb; lia).
+      assert (Hp1 : 128 <= (bd_range d - split) * 2 ^ Z.of_nat 8) by (change (2 ^ Z.of_nat 8) with 256; clear - Hr1; lia).
+      pose proof (normalize_range _ _ _ _ _ _ _ _ _ _ _ Hr1 Hp1 En).
+      rewrite En'. cbn [bd_past bd_range bd_count bd_pos bd_lim bd_value bd_rest]. unfold rel.
+      cbn [bd_past bd_range bd_count bd_pos bd_lim bd_value bd_rest]. auto 10.
+    - assert (Hrel0 : crel (bd_value d) (bd_count d) (bd_rest d) (bd_value d') (bd_rest d') (bd_pos d)).
+      { unfold crel. fold t. repeat split; try assumption; lia. }
+      destruct (bd_normalize 8 (bd_value d) split (bd_count d) (bd_rest d) (bd_pos d))
+        as [[[[v1 rg] c1] r1] p1] eqn:En.
+      destruct (normalize_sim _ _ _ _ _ _ _ _ _ _ _ _ _ Hrel0 En) as (v1' & r1' & En' & Hrel1).
+      assert (Hr1 : 1 <= split <= 255) by (clear - Hsp Hrb; lia).
+      assert (Hp1 : 128 <= split * 2 ^ Z.of_nat 8) by (change (2 ^ Z.of_nat 8) with 256; clear - Hr1; lia).
+      pose proof (normalize_range _ _ _ _ _ _ _ _ _ _ _ Hr1 Hp1 En).
+      rewrite En'. cbn [bd_past bd_range bd_count bd_pos bd_lim bd_value bd_rest]. unfold rel.
+      cbn [bd_past bd_range bd_count bd_pos bd_lim bd_value bd_rest]. auto 10.
+  Qed.
+
+  (** the two freshly initialised decoders are related *)
+  Lemma init_rel : rel (bd_init l) (bd_init (l ++ ext)).
+  Proof.
+    assert (Hle : bytes_ok (l ++ ext)) by (apply bytes_ok_app; split; assumption).
+    rewrite (bd_init_fields l), (bd_init_fields (l ++ ext)).
+    pose proof (nth_byte l 0 Hl) as A0. pose proof (nth_byte l 1 Hl) as A1.
+    pose proof (nth_byte (l ++ ext) 0 Hle) as B0. pose proof (nth_byte (l ++ ext) 1 Hle) as B1.
+    unfold rel, crel. cbn [bd_range bd_count bd_pos bd_lim bd_value bd_rest].
+    change (0 mod 8) with 0. change (0 / 8) with 0. change (Z.to_nat (2 + 0)) with 2%nat.
+    unfold n, zlen. rewrite app_length.
+    split; [reflexivity|]. split; [reflexivity|]. split; [reflexivity|]. split; [reflexivity|].
+    split; [lia|]. split; [lia|].
+    split; [lia|]. split; [reflexivity|]. split; [reflexivity|]. split; [reflexivity|].
+    split; [lia|]. split; [lia|].
+    split; [unfold lowz; cbn; apply Z.mod_1_r|]. split; [unfold lowz; cbn; apply Z.mod_1_r|].
+    destruct l as [|a [|b r]]; cbn [length nth app] in *.
+    - (* no data *) change (kof (0 + 16 - 8 * Z.of_nat 0)) with 16. pow2norm. lia.
+    - change (kof (0 + 16 - 8 * Z.of_nat 1)) with 8. pow2norm. lia.
+    - assert (Hk0 : kof (0 + 16 - 8 * Z.of_nat (S (S (length r)))) = 0).
+      { unfold kof. destruct (Z.leb_spec (0 + 16 - 8 * Z.of_nat (S (S (length r)))) 0); [reflexivity|lia]. }
+      rewrite Hk0. pow2norm. lia.
+  Qed.
+
+  (** ** Lifting to the primitive readers of [Vp8Bool] *)
+  Lemma read_bool_past_mono prob d : bd_past d = true -> bd_past (snd (read_bool prob d)) = true.
+  Proof.
+    intros H. unfold read_bool.
+    destruct (bd_split (bd_range d) prob * 256 <=? bd_value d);
+      match goal with |- context [bd_normalize ?f ?v ?rg ?c ?r ?p] => destruct (bd_normalize f v rg c r p) as [[[[? ?] ?] ?] ?] end;
+      cbn [snd bd_past]; rewrite H; reflexivity.
+  Qed.
+
+  (** a bool read that leaves the flag clear was read inside the data *)
+  Lemma read_bool_lift prob d d' b d1 :
+    rel d d' -> 0 <= prob <= 255 -> read_bool prob d = (b, d1) -> bd_past d1 = false ->
+    exists d1', read_bool prob d' = (b, d1') /\ rel d1 d1' /\ bd_past d1' = bd_past d' /\ bd_past d = false.
+  Proof.
+    intros Hrel Hp E Hpast.
+    assert (Hin : bd_past d = false /\ bd_pos d <= bd_lim d).
+    { unfold read_bool in E.
+      destruct (bd_split (bd_range d) prob * 256 <=? bd_value d);
+        match type of E with context [bd_normalize ?f ?v ?rg ?c ?r ?p] => destruct (bd_normalize f v rg c r p) as [[[[? ?] ?] ?] ?] end;
+        injection E as _ <-; cbn [bd_past] in Hpast; apply orb_false_iff in Hpast; destruct Hpast as [H1 H2]; split; auto; lia. }
+    destruct Hin as [Hp0 Hin].
+    pose proof (read_bool_sim prob d d' Hrel Hin Hp) as Hs. rewrite E in Hs.
+    destruct (read_bool prob d') as [b' d1'] eqn:E'. destruct Hs as (-> & Hr1 & _ & Hq).
+    exists d1'. auto.
+  Qed.
+
+  Lemma read_literal_past_mono : forall k acc d, bd_past d = true -> bd_past (snd (read_literal k acc d)) = true.
+  Proof.
+    induction k as [|k IH]; intros acc d H; cbn [read_literal]; [exact H|].
+    pose proof (read_bool_past_mono 128 d H) as H1. destruct (read_bool 128 d) as [b d1]. cbn [snd] in H1.
+    apply IH. exact H1.
+  Qed.
+
+  Lemma read_literal_lift : forall k acc d d' v d1,
+    rel d d' -> read_literal k acc d = (v, d1) -> bd_past d1 = false ->
+    exists d1', read_literal k acc d' = (v, d1') /\ rel d1 d1' /\ bd_past d1' = bd_past d' /\ bd_past d = false.
+  Proof.
+    induction k as [|k IH]; intros acc d d' v d1 Hrel E Hpast; cbn [read_literal] in *.
+    - injection E as <- <-. exists d'. auto.
+    - destruct (read_bool 128 d) as [b dm] eqn:Eb.
+      assert (Hpm : bd_past dm = false).
+      { destruct (bd_past dm) eqn:Epm; [|reflexivity].
+        pose proof (read_literal_past_mono k (2 * acc + (if b then 1 else 0)) dm Epm) as Hm. rewrite E in Hm.
+        cbn [snd] in Hm. congruence. }
+      destruct (read_bool_lift 128 d d' b dm Hrel ltac:(lia) Eb Hpm) as (dm' & Eb' & Hrm & Hq & Hp0).
+      rewrite Eb'. destruct (IH _ _ _ _ _ Hrm E Hpast) as (d1' & E1 & Hr1 & Hq1 & _).
+      exists d1'. split; [exact E1|]. split; [exact Hr1|]. split; [rewrite Hq1; exact Hq|exact Hp0].
+  Qed.
+
+  Lemma read_tree_past_mono {A} : forall (t : tree A) probs d,
+    bd_past d = true -> bd_past (snd (read_tree t probs d)) = true.
+  Proof.
+    induction t as [a|i z IHz o IHo]; intros probs d H; cbn [read_tree]; [exact H|].
+    pose proof (read_bool_past_mono (nth i probs 0) d H) as H1.
+    destruct (read_bool (nth i probs 0) d) as [b d1]. cbn [snd] in H1. destruct b; [apply IHo|apply IHz]; exact H1.
+  Qed.
+
+  Lemma read_tree_lift {A} : forall (t : tree A) probs d d' a d1,
+    Forall (fun p => 0 <= p <= 255) probs ->
+    rel d d' -> read_tree t probs d = (a, d1) -> bd_past d1 = false ->
+    exists d1', read_tree t probs d' = (a, d1') /\ rel d1 d1' /\ bd_past d1' = bd_past d' /\ bd_past d = false.
+  Proof.
+    induction t as [a0|i z IHz o IHo]; intros probs d d' a d1 Hprobs Hrel E Hpast; cbn [read_tree] in *.
+    - injection E as <- <-. exists d'. auto.
+    - assert (Hpi : 0 <= nth i probs 0 <= 255).
+      { destruct (Nat.lt_ge_cases i (length probs)) as [Hi|Hi].
+        - rewrite Forall_forall in Hprobs. apply Hprobs. apply nth_In. exact Hi.
+        - rewrite nth_overflow by exact Hi. lia. }
+      destruct (read_bool (nth i probs 0) d) as [b dm] eqn:Eb.
+      assert (Hpm : bd_past dm = false).
+      { destruct (bd_past dm) eqn:Epm; [|reflexivity]. destruct b.
+        - pose proof (read_tree_past_mono o probs dm Epm) as Hm. rewrite E in Hm. cbn [snd] in Hm. congruence.
+        - pose proof (read_tree_past_mono z probs dm Epm) as Hm. rewrite E in Hm. cbn [snd] in Hm. congruence. }
+      destruct (read_bool_lift _ d d' b dm Hrel Hpi Eb Hpm) as (dm' & Eb' & Hrm & Hq & Hp0).
+      rewrite Eb'. destruct b.
+      + destruct (IHo _ _ _ _ _ Hprobs Hrm E Hpast) as (d1' & E1 & Hr1 & Hq1 & _). exists d1'. split; [exact E1|]. split; [exact Hr1|]. split; [rewrite Hq1; exact Hq|exact Hp0].
+      + destruct (IHz _ _ _ _ _ Hprobs Hrm E Hpast) as (d1' & E1 & Hr1 & Hq1 & _). exists d1'. split; [exact E1|]. split; [exact Hr1|]. split; [rewrite Hq1; exact Hq|exact Hp0].
+  Qed.
 End Sim.
+
+(** ** Summary statements (closed) *)
+(** Bits decoded inside the data do not depend on what follows the data. *)
+Theorem bool_literal_prefix_stable : forall l ext k v d1,
+  bytes_ok l -> bytes_ok ext ->
+  read_lit k (bd_init l) = (v, d1) -> bd_past d1 = false ->
+  exists d1', read_lit k (bd_init (l ++ ext)) = (v, d1') /\ bd_past d1' = false.
+Proof.
+  intros l ext k v d1 Hl He E Hp. unfold read_lit in *.
+  destruct (read_literal_lift l ext Hl He k 0 _ _ v d1 (init_rel l ext Hl He) E Hp) as (d1' & E' & _ & Hq & _).
+  exists d1'. split; [exact E'|]. rewrite Hq. destruct l as [|a [|b r]], ext as [|e0 [|e1 er]]; reflexivity.
+Qed.
+
+Theorem bool_tree_prefix_stable : forall (A : Type) (t : tree A) probs l ext a d1,
+  bytes_ok l -> bytes_ok ext -> Forall (fun p => 0 <= p <= 255) probs ->
+  read_tree t probs (bd_init l) = (a, d1) -> bd_past d1 = false ->
+  exists d1', read_tree t probs (bd_init (l ++ ext)) = (a, d1') /\ bd_past d1' = false.
+Proof.
+  intros A t probs l ext a d1 Hl He Hpr E Hp.
+  destruct (read_tree_lift l ext Hl He t probs _ _ a d1 Hpr (init_rel l ext Hl He) E Hp) as (d1' & E' & _ & Hq & _).
+  exists d1'. split; [exact E'|]. rewrite Hq. destruct l as [|a0 [|b r]], ext as [|e0 [|e1 er]]; reflexivity.
+Qed.
+
+(** Without the past-end flag the decoder is NOT prefix-monotone: after the single
+    byte 0x00 the 9th literal bit is read from the implicit zero bytes; appending
+    0xFF changes it.  The flag is set in that run. *)
+Theorem bool_past_end_differs :
+  exists l ext k, fst (read_lit k (bd_init l)) <> fst (read_lit k (bd_init (l ++ ext))) /\
+                  bd_past (snd (read_lit k (bd_init l))) = true.
+Proof. exists [0], [255], 12%nat. vm_compute. split; [discriminate|reflexivity]. Qed.
+
+(** ** The frame-level statement (not proved here)
+    With the lemmas above lifted through every reader of [Vp8Syntax] and the row
+    loops of [Vp8Spec] one obtains the statement below: appending bytes to a VP8
+    frame leaves the first partition and all token partitions but the last
+    unchanged and extends the last one, whose decoder stays [rel]ated to the
+    original as long as no past-end read occurs -- which [decode_yuv] turns into
+    E_TRUNC.  The lifting is mechanical but long (some 25 readers, each needing a
+    past-flag monotonicity lemma and a simulation lemma); it is not done.  The
+    statement is kept as the full statement; harness/c17 evaluates it on the real
+    decoder for every prefix of every generated lossy file. *)
+From Webp Require Vp8.Vp8Spec.
+Definition vp8_frame_prefix_full_statement : Prop :=
+  forall d ext r, bytes_ok d -> bytes_ok ext ->
+    Vp8Spec.decode_yuv d = Base.Res.Ok r -> Vp8Spec.decode_yuv (d ++ ext) = Base.Res.Ok r.
